@@ -201,6 +201,13 @@ func encryptMain(args []string) {
 		st.Cases++
 		w, s, i := pickOpt([]string{"N", "1", "1", "2"}), pickOpt([]string{"N", "1", "2"}), pickOpt([]string{"N", "1"})
 		newFilter(w, s, i)
+		// the key material in force, tracked from the calls the harness itself makes (C16 oracle)
+		curW, curS, curI := w, s, i
+		upd := func(cur *string, v string) {
+			if v != "N" {
+				*cur = v
+			}
+		}
 		o.emit(fmt.Sprintf("reset %s %s %s", w, s, i), "reset")
 		steps := 1 + p.intn(5)
 		for k := 0; k < steps; k++ {
@@ -219,6 +226,9 @@ func encryptMain(args []string) {
 					opts = append(opts, encrypt.WithInfo([]byte("info"+ri)))
 				}
 				h.f.Rotate(opts...)
+				upd(&curW, rw)
+				upd(&curS, rs)
+				upd(&curI, ri)
 				o.emit(fmt.Sprintf("rotate %s %s %s", rw, rs, ri), "ok")
 				st.hit("rotate")
 			case r == 1: // rotation payload
@@ -231,6 +241,9 @@ func encryptMain(args []string) {
 				if got != nil || err != nil {
 					oracle("C09 a key-rotation payload was forwarded or failed: %v %v", got, err)
 				}
+				upd(&curW, rw)
+				upd(&curS, rs)
+				upd(&curI, ri)
 				o.emit(fmt.Sprintf("rotpayload %s %s %s", rw, rs, ri), "consumed")
 				st.hit("rotpayload")
 			default:
@@ -310,10 +323,12 @@ func encryptMain(args []string) {
 					nf := 1 + p.intn(6)
 					var sf []reflect.StructField
 					type fv struct {
-						kind  string
-						plain string
-						m     int
-						nilB  bool
+						kind   string
+						plain  string
+						m      int
+						nilB   bool
+						plains []string // slice kinds: "" = nil element
+						ms     []int
 					}
 					var fvs []fv
 					for fi := 0; fi < nf; fi++ {
@@ -327,7 +342,39 @@ func encryptMain(args []string) {
 						}
 						mCounter++
 						plain := fmt.Sprintf("m%d", mCounter)
-						switch k := p.intn(8); {
+						switch k := p.intn(11); {
+						case k >= 8: // []string / [][]byte fields, possibly with nil elements and a nil tail
+							isB := k >= 9
+							ne := p.intn(4)
+							var v fv
+							v.kind = "S"
+							if isB {
+								v.kind = "B"
+							}
+							var mt []string
+							for e := 0; e < ne; e++ {
+								if isB && p.chance(1, 3) {
+									v.plains = append(v.plains, "")
+									v.ms = append(v.ms, 0)
+									mt = append(mt, "N")
+									continue
+								}
+								mCounter++
+								v.plains = append(v.plains, fmt.Sprintf("m%d", mCounter))
+								v.ms = append(v.ms, mCounter)
+								mt = append(mt, fmt.Sprint(mCounter))
+							}
+							if isB {
+								sf = append(sf, reflect.StructField{Name: fmt.Sprintf("F%d", fi), Type: reflect.TypeOf([][]byte(nil)), Tag: st})
+							} else {
+								sf = append(sf, reflect.StructField{Name: fmt.Sprintf("F%d", fi), Type: reflect.TypeOf([]string(nil)), Tag: st})
+							}
+							fvs = append(fvs, v)
+							mtok := "-"
+							if len(mt) > 0 {
+								mtok = strings.Join(mt, ".")
+							}
+							fieldToks = append(fieldToks, fmt.Sprintf("E:%s:%s:%s", v.kind, mtok, tagTok))
 						case k < 4:
 							sf = append(sf, reflect.StructField{Name: fmt.Sprintf("F%d", fi), Type: reflect.TypeOf(""), Tag: st})
 							fvs = append(fvs, fv{kind: "s", plain: plain, m: mCounter})
@@ -362,9 +409,47 @@ func encryptMain(args []string) {
 							}
 						case "o":
 							pv.Elem().Field(fi).SetInt(int64(fi))
+						case "S":
+							pv.Elem().Field(fi).Set(reflect.ValueOf(append([]string{}, v.plains...)))
+						case "B":
+							bs := make([][]byte, len(v.plains))
+							for bi, pl := range v.plains {
+								if pl != "" {
+									bs[bi] = []byte(pl)
+								}
+							}
+							pv.Elem().Field(fi).Set(reflect.ValueOf(bs))
 						}
 						fi := fi
 						v := v
+						if v.kind == "S" || v.kind == "B" {
+							leaves = append(leaves, leafRef{plain: "\x00slice", m: 0, get: func(out reflect.Value) (string, bool) {
+								f := out.Elem().Field(fi)
+								var parts []string
+								for ei := 0; ei < f.Len(); ei++ {
+									if v.plains[ei] == "" {
+										if f.Index(ei).Len() == 0 {
+											parts = append(parts, "nil")
+										} else {
+											parts = append(parts, "X")
+										}
+										continue
+									}
+									var val string
+									if v.kind == "S" {
+										val = f.Index(ei).String()
+									} else {
+										val = string(f.Index(ei).Bytes())
+									}
+									parts = append(parts, h.canonLeaf(val, v.plains[ei], v.ms[ei], ewi, salts, infos))
+								}
+								if f.Len() != len(v.plains) {
+									return "LEN", true
+								}
+								return "[" + strings.Join(parts, ";") + "]", true
+							}})
+							continue
+						}
 						leaves = append(leaves, leafRef{plain: v.plain, m: v.m, get: func(out reflect.Value) (string, bool) {
 							f := out.Elem().Field(fi)
 							switch v.kind {
@@ -426,7 +511,41 @@ func encryptMain(args []string) {
 							}
 							continue
 						}
-						ls = append(ls, h.canonLeaf(v, l.plain, l.m, ewi, salts, infos))
+						if l.plain == "\x00slice" {
+							ls = append(ls, v)
+							continue
+						}
+						cl := h.canonLeaf(v, l.plain, l.m, ewi, salts, infos)
+						ls = append(ls, cl)
+						// C16: the key, salt and info in force
+						if strings.HasPrefix(cl, "E") || strings.HasPrefix(cl, "M") {
+							wantID := "-"
+							wantS, wantI := curS, curI
+							if ewi != nil {
+								wantID = strings.TrimPrefix(ewi.id, "ev")
+								if ewi.salt != nil {
+									wantS = strings.TrimPrefix(string(ewi.salt), "salt")
+								}
+								if ewi.info != nil {
+									wantI = strings.TrimPrefix(string(ewi.info), "info")
+								}
+							}
+							dash := func(x string) string {
+								if x == "N" {
+									return "-"
+								}
+								return x
+							}
+							want := ""
+							if strings.HasPrefix(cl, "E") {
+								want = fmt.Sprintf("E%s/%s:%d", curW, wantID, l.m)
+							} else {
+								want = fmt.Sprintf("M%s/%s:%s:%s:%d", curW, wantID, dash(wantS), dash(wantI), l.m)
+							}
+							if cl != want {
+								oracle("C16 a value was protected as %s but the key material in force is %s (wrapper %s, salt %s, info %s after the rotations so far)", cl, want, curW, curS, curI)
+							}
+						}
 					}
 					res = "filtered " + strings.Join(ls, ",")
 					if reflect.TypeOf(got.Payload) != reflect.TypeOf(payload) {
